@@ -245,7 +245,9 @@ def describe(v):
     if isinstance(v, (list, tuple)):
         return f"{type(v).__name__}[" + ",".join(describe(i) for i in v) + "]"
     if isinstance(v, dict):
-        return "dict{" + ",".join(f"{describe(k)}:{describe(x)}" for k, x in sorted(v.items(), key=repr)) + "}"
+        return "dict{" + ",".join(sorted(f"{describe(k)}:{describe(x)}" for k, x in v.items())) + "}"
+    if isinstance(v, (set, frozenset)):
+        return f"{type(v).__name__}{{" + ",".join(sorted(describe(i) for i in v)) + "}"
     return f"{type(v).__name__}({v!r})"
 
 
@@ -289,3 +291,12 @@ def ReadFile(f: _file_type()) -> str:
         data = fh.read().decode()
     body("ReadFile", (data,))
     return data
+
+
+# ------------------------------------------------------------------ C07
+
+
+@python.define(xor=[("a", "b")])
+def XorTask(a: int | None = None, b: int | None = None, c: int = 0) -> int:
+    body("XorTask", (a, b, c))
+    return (a or 0) * 10 + (b or 0) * 100 + c
